@@ -16,9 +16,9 @@ def run(ctx):
     ctx.rule = ("a case is a four-call session parse/build/parse/build from an arbitrary input, or build/parse/build from a value, on a random "
                 "sequential well-formed program; inputs: random over the boundary alphabet, canonical encodings and their bit flips, insertions, "
                 "deletions, truncations; non-trivial = first parse accepted (premise held), counted by distinct (program, input)")
-    nprog = 450 if quick else 9000
+    nprog = 300 if quick else 7000
     from .. import universes as U
-    progs = [(p, rng.choice([{"k": 2}, {"k": 1}, {"k": 3}])) for p in U.systematic(rng, 0.45 if quick else 1.0)]
+    progs = [(p, rng.choice([{"k": 2}, {"k": 1}, {"k": 3}])) for p in U.systematic(rng, 0.25 if quick else 1.0)]
     for i in range(nprog):
         kw = rng.choice([{}, {}, {"k": 2}, {"k": 1, "w": 3}])
         progs.append((gen.program(rng, rng.choice([1, 2, 3, 3, 4]), kw), kw))
